@@ -113,6 +113,13 @@ def worker_home(tag='w'):
     shutil.copytree(tmpl, home)
     os.environ['HOME'] = home
     os.environ['NUMBA_CACHE_DIR'] = os.path.join(home, 'numba')
+    # temporary files of the code under test (ANDES makes one log directory per logger configuration) go below the
+    # worker's HOME and are removed with it instead of piling up in /tmp
+    tmp = os.path.join(home, 'tmp')
+    os.makedirs(tmp, exist_ok=True)
+    os.environ['TMPDIR'] = tmp
+    import tempfile
+    tempfile.tempdir = tmp
     _worker_home = home
     atexit.register(shutil.rmtree, home, True)
     activate_repo()
@@ -129,7 +136,7 @@ def scratch_dir(name):
 def quiet_andes():
     import logging
     import andes
-    andes.main.config_logger(stream_level=50, file=False)
+    andes.main.config_logger(stream_level=50, file=False, log_path=os.environ.get('TMPDIR') or None)
     logging.getLogger('andes').setLevel(logging.CRITICAL)
     import warnings
     warnings.filterwarnings('ignore')
